@@ -4,61 +4,44 @@
 From Verif Require Import lib.Base lib.ListX lib.Str lib.Utf8 gen.Gen.
 From Verif Require Import model.Stream model.Body model.MultipartRef model.Multipart model.Fields model.BodyPipeline.
 From Verif Require Import proofs.C07_fields proofs.C07_spec proofs.C07_ref proofs.C07_roundtrip proofs.C07_collect
-  proofs.C07_full proofs.C07_streaming.
+  proofs.C07_full proofs.C07_streaming proofs.C04_proofs proofs.C05_proofs proofs.C12_refine.
+From Verif Require model.Chunked.
 Local Open Scope N_scope.
 
-(* ---- the Content-Length loop delivers exactly the first cl bytes, in parts ---- *)
-Lemma read_fst s n : fst (read s n) = firstn (read_len s n) (rest s).
-Proof. reflexivity. Qed.
-
-Lemma read_snd_rest s n : rest (snd (read s n)) = skipn (read_len s n) (rest s).
-Proof. reflexivity. Qed.
-
-Lemma read_len_le s n : (read_len s n <= n)%nat.
-Proof. unfold read_len; destruct (sched s); lia. Qed.
-
-Lemma cl_parts_exact :
-  forall fuel s buf rl parts size,
-    (0 < buf)%nat -> (length (rest s) < fuel)%nat ->
-    exists parts', cl_parts fuel s buf None rl parts size = RDone (parts ++ parts')
-                   /\ concat parts' = firstn rl (rest s).
+(* ---- the body and its parts, from the theorems about Body.v (C04) and
+   Chunked.v (C05) through the refinement proofs/C12_refine.v ---- *)
+Lemma read_parts_of_env cfg cl te s body sp s' :
+  Chunked.body_read_env s (c_memfile cfg) (c_maxbody cfg) cl te = BDone body sp s' ->
+  exists parts, read_parts cfg cl te s = RDone parts /\ concat parts = body.
 Proof.
-  induction fuel as [|f IH]; intros s buf rl parts size Hb Hf; [lia|].
-  cbn [cl_parts]. destruct (Nat.eqb_spec rl 0) as [->|Hrl].
-  - exists []. rewrite app_nil_r. split; reflexivity.
-  - destruct (read s (Nat.min rl buf)) as [part s'] eqn:E.
-    assert (Ep : part = firstn (read_len s (Nat.min rl buf)) (rest s)) by (rewrite <- read_fst, E; reflexivity).
-    assert (Er : rest s' = skipn (read_len s (Nat.min rl buf)) (rest s)) by (rewrite <- read_snd_rest, E; reflexivity).
-    set (k := read_len s (Nat.min rl buf)) in *.
-    assert (Hk : (k <= rl)%nat) by (pose proof (read_len_le s (Nat.min rl buf)); unfold k; lia).
-    destruct part as [|b part].
-    + exists []. rewrite app_nil_r. split; [reflexivity|].
-      symmetry in Ep. apply firstn_nil_inv in Ep. destruct Ep as [Hk0|Hnil].
-      * exfalso. unfold k, read_len in Hk0. destruct (sched s); lia.
-      * rewrite Hnil. now rewrite firstn_nil.
-    + cbn [over].
-      assert (Hlen : length (b :: part) = Nat.min k (length (rest s))) by (rewrite Ep; apply firstn_length).
-      destruct (IH s' buf (rl - length (b :: part))%nat (parts ++ [b :: part]) (size + length (b :: part))%nat Hb)
-        as (parts' & Heq & Hcat).
-      { rewrite Er, skipn_length. simpl length in Hlen. lia. }
-      exists ((b :: part) :: parts'). rewrite Heq, <- app_assoc. split; [reflexivity|].
-      cbn [concat]. rewrite Hcat, Er.
-      destruct (Nat.le_gt_cases k (length (rest s))) as [Hle|Hgt].
-      * replace (length (b :: part)) with k by lia. rewrite Ep. now apply firstn_firstn_skipn.
-      * (* the stream is exhausted by this read *)
-        rewrite skipn_all2 by lia. rewrite firstn_nil, app_nil_r.
-        rewrite Ep. rewrite firstn_all2 by lia. rewrite firstn_all2; [reflexivity|]. lia.
+  intros H. pose proof (read_parts_refines cfg cl te s) as R. rewrite H in R.
+  destruct (read_parts cfg cl te s) as [parts| | |]; cbn [refines] in R; try contradiction.
+  now exists parts.
 Qed.
 
-Lemma read_parts_cl_exact cfg body sc :
-  (0 < c_memfile cfg)%nat -> c_maxbody cfg = None ->
-  exists parts, read_parts cfg (mkFraming (Z.of_nat (length body)) false) (stream_init body sc) = RDone parts
+Lemma read_parts_cl_exact cfg te body sc :
+  Chunked.te_chunked te = false -> (0 < c_memfile cfg)%nat -> c_maxbody cfg = None ->
+  exists parts, read_parts cfg (Z.of_nat (length body)) te (stream_init body sc) = RDone parts
                 /\ concat parts = body.
 Proof.
-  intros Hb Hm. unfold read_parts. cbn [fr_chunked fr_cl]. rewrite Hm, Nat2Z.id.
-  destruct (cl_parts_exact (S (length (rest (stream_init body sc)))) (stream_init body sc) (c_memfile cfg)
-              (length body) [] 0 Hb (Nat.lt_succ_diag_r _)) as (parts & Heq & Hcat).
-  exists parts. split; [exact Heq|]. rewrite Hcat. cbn [stream_init rest]. apply firstn_all.
+  intros Hte Hb Hm.
+  destruct (C04_exact_lemma body sc (c_memfile cfg) (Z.of_nat (length body)) Hb) as (s' & Heq & _).
+  rewrite Nat2Z.id, firstn_all in Heq.
+  eapply (read_parts_of_env cfg _ te _ body).
+  unfold Chunked.body_read_env. rewrite Hte, Hm. exact Heq.
+Qed.
+
+Lemma read_parts_chunked_exact cfg cl te cs last tail sc :
+  Chunked.te_chunked te = true -> c_maxbody cfg = None ->
+  Forall Chunked.chunk_ok cs -> Chunked.last_ok last ->
+  Forall (fun c => (Chunked.line_len c <= c_memfile cfg)%nat) cs -> (Chunked.line_len last <= c_memfile cfg)%nat ->
+  exists parts, read_parts cfg cl te (stream_init (Chunked.enc_chunked cs last tail) sc) = RDone parts
+                /\ concat parts = Chunked.payload_of cs.
+Proof.
+  intros Hte Hm Hcs Hl Hfit Hlfit.
+  destruct (C05_exact_lemma cs last tail (c_memfile cfg) sc Hcs Hl Hfit Hlfit) as (s' & Heq & _).
+  eapply (read_parts_of_env cfg cl te).
+  unfold Chunked.body_read_env. rewrite Hte, Hm. exact Heq.
 Qed.
 
 (* ---- the CONTENT_TYPE a browser sends: multipart/form-data; boundary=b ---- *)
@@ -91,32 +74,30 @@ Qed.
 
 Definition form_access (a : access) : Prop := match a with AForms | AFiles | APost => True | _ => False end.
 
-(* Request.forms / files / POST through the whole pipeline *)
-Theorem roundtrip_pipeline jk cfg b fs sc a :
+(* Request.forms / files / POST through the whole pipeline, for any framing that
+   delivers the encoded form as the parts [parts] *)
+Lemma roundtrip_pipeline_gen jk cfg b fs fr s cl parts a :
   form_access a ->
   b <> [] -> lacks SEMI b -> lacks 10 b -> lacks 13 b -> scalars b ->
   parts_ok (utf8_enc_str b) fs ->
-  (0 < c_memfile cfg)%nat -> c_maxbody cfg = None ->
   (total_cost fs <= Z.of_nat (c_memfile cfg))%Z ->
-  let body := enc_form (utf8_enc_str b) fs in
+  content_length fr = Some cl ->
+  read_parts cfg cl (fr_te fr) s = RDone parts ->
+  concat parts = enc_form (utf8_enc_str b) fs ->
   exists d,
-    process jk cfg (mp_ctype b) (mkFraming (Z.of_nat (length body)) false) (stream_init body sc) a
-      = Ok (VMultipart d)
-    /\ view body d = Some (expected fs).
+    process jk cfg (mp_ctype b) fr s a = Ok (VMultipart d)
+    /\ view (enc_form (utf8_enc_str b) fs) d = Some (expected fs).
 Proof.
-  intros Ha Hne Hs Hl Hcr Hsc Hok Hmem Hmax Hcost body.
-  set (B := utf8_enc_str b) in *.
+  intros Ha Hne Hs Hl Hcr Hsc Hok Hcost Hcl Hread Hcat.
+  set (B := utf8_enc_str b) in *. set (body := enc_form B fs) in *.
   assert (HB : lacks 13 B) by (apply utf8_lacks_low; [reflexivity | exact Hcr]).
-  destruct (read_parts_cl_exact cfg body sc Hmem Hmax) as (parts & Hread & Hcat).
   destruct (roundtrip_streaming B fs (Z.of_nat (c_memfile cfg)) parts HB Hok Hcost Hcat) as (d & Hpost & Hview).
   exists d. split; [|exact Hview].
-  assert (Hstage : body_stage cfg (mp_ctype b) (mkFraming (Z.of_nat (length body)) false) (stream_init body sc)
-                   = inl (body, Some (markup_chunks B parts))).
+  assert (Hstage : body_stage cfg (mp_ctype b) fr s = inl (body, Some (markup_chunks B parts))).
   { unfold body_stage. rewrite (boundary_match_mp b Hne Hs Hl).
     rewrite (utf8_encode_some b Hsc). fold B. rewrite (lacks_contains CR B HB).
-    rewrite Hread, Hcat. reflexivity. }
-  assert (Hp : post_prop jk cfg (mp_ctype b) (mkFraming (Z.of_nat (length body)) false) (stream_init body sc)
-               = Ok (VMultipart d)).
+    rewrite Hcl, Hread, Hcat. reflexivity. }
+  assert (Hp : post_prop jk cfg (mp_ctype b) fr s = Ok (VMultipart d)).
   { unfold post_prop.
     assert (Hct : prefixb s_multipart_slash (content_type (mp_ctype b)) = true).
     { unfold content_type, mp_ctype, lower. rewrite map_app. reflexivity. }
@@ -126,4 +107,50 @@ Proof.
     destruct (iter_items body (fst (markup_chunks B parts)) (Z.of_nat (c_memfile cfg))); try discriminate.
     congruence. }
   destruct a; cbn [process form_access] in *; try exact Hp; contradiction.
+Qed.
+
+(* Content-Length framing: CONTENT_LENGTH is any spelling int() reads as the body length *)
+Theorem roundtrip_pipeline jk cfg b fs sc a clraw te :
+  form_access a ->
+  b <> [] -> lacks SEMI b -> lacks 10 b -> lacks 13 b -> scalars b ->
+  parts_ok (utf8_enc_str b) fs ->
+  (0 < c_memfile cfg)%nat -> c_maxbody cfg = None ->
+  (total_cost fs <= Z.of_nat (c_memfile cfg))%Z ->
+  let body := enc_form (utf8_enc_str b) fs in
+  Chunked.te_chunked te = false ->
+  content_length (mkFraming clraw te) = Some (Z.of_nat (length body)) ->
+  exists d,
+    process jk cfg (mp_ctype b) (mkFraming clraw te) (stream_init body sc) a = Ok (VMultipart d)
+    /\ view body d = Some (expected fs).
+Proof.
+  intros Ha Hne Hs Hl Hcr Hsc Hok Hmem Hmax Hcost body Hte Hcl.
+  destruct (read_parts_cl_exact cfg te body sc Hte Hmem Hmax) as (parts & Hread & Hcat).
+  now apply (roundtrip_pipeline_gen jk cfg b fs (mkFraming clraw te) _ (Z.of_nat (length body)) parts a).
+Qed.
+
+(* chunked framing: every legal chunked encoding of the encoded form — any
+   partition into chunks, any hex spelling of the sizes, any chunk extensions,
+   any trailer — under any read schedule, whatever Content-Length says *)
+Theorem roundtrip_pipeline_chunked jk cfg b fs cs last tail sc a clraw te :
+  form_access a ->
+  b <> [] -> lacks SEMI b -> lacks 10 b -> lacks 13 b -> scalars b ->
+  parts_ok (utf8_enc_str b) fs ->
+  c_maxbody cfg = None ->
+  (total_cost fs <= Z.of_nat (c_memfile cfg))%Z ->
+  let body := enc_form (utf8_enc_str b) fs in
+  Chunked.te_chunked te = true ->
+  content_length (mkFraming clraw te) <> None ->
+  Forall Chunked.chunk_ok cs -> Chunked.last_ok last -> Chunked.payload_of cs = body ->
+  Forall (fun c => (Chunked.line_len c <= c_memfile cfg)%nat) cs -> (Chunked.line_len last <= c_memfile cfg)%nat ->
+  exists d,
+    process jk cfg (mp_ctype b) (mkFraming clraw te) (stream_init (Chunked.enc_chunked cs last tail) sc) a
+      = Ok (VMultipart d)
+    /\ view body d = Some (expected fs).
+Proof.
+  intros Ha Hne Hs Hl Hcr Hsc Hok Hmax Hcost body Hte Hcl Hcs Hlast Hpay Hfit Hlfit.
+  destruct (content_length (mkFraming clraw te)) as [cl|] eqn:Ecl; [|congruence].
+  destruct (read_parts_chunked_exact cfg cl te cs last tail sc Hte Hmax Hcs Hlast Hfit Hlfit)
+    as (parts & Hread & Hcat).
+  rewrite Hpay in Hcat.
+  now apply (roundtrip_pipeline_gen jk cfg b fs (mkFraming clraw te) _ cl parts a).
 Qed.
